@@ -726,9 +726,27 @@ def evaluate_fresh(cases, use_driver=True):
 def evaluate(cases, use_driver=True):
     if cases and all(c.get("mutate") for c in cases):
         return evaluate_fresh(cases, use_driver)
-    Rs = pool().map(real_worker, cases, chunksize=4)
+    p = pool()  # (created before the thread below: the workers are forked from a single-threaded process)
+    box = {}
+    th = None
     if use_driver:
-        Ms = [canon_M(m) for m in driver.call_batch([model_request(c) for c in cases])]
+        # the Lean driver works on the batch while the workers run the real code
+        import threading
+
+        def run_driver():
+            try:
+                box["M"] = driver.call_batch([model_request(c) for c in cases])
+            except BaseException as e:  # noqa: BLE001
+                box["err"] = e
+
+        th = threading.Thread(target=run_driver)
+        th.start()
+    Rs = p.map(real_worker, cases, chunksize=4)
+    if th is not None:
+        th.join()
+        if "err" in box:
+            raise box["err"]
+        Ms = [canon_M(m) for m in box["M"]]
     else:
         Ms = [None] * len(cases)
     return list(zip(Rs, Ms))
@@ -1346,6 +1364,9 @@ def run(ctx):
     ex = exhaustive_cases(ctx.tier)
     ctx.exhaustive = True
     ctx.extra_cov["exhaustive_stratum"] = len(ex)
+    if ctx.tier == "quick":
+        for c in ex:
+            c.setdefault("states", gen_states(rng, c, n=1))  # one state per structural case in quick, two in thorough
     run_cases(ctx, ex, rng)
     n = ctx.n(4000, 120000)
     if not ctx.proof_ok or ctx.drift:
